@@ -12,6 +12,9 @@ use core::num::NonZeroUsize;
 
 macro_rules! range_guard {
     ($name:ident, $W:ty, $S:ty, $w:ident, $sget:ident, $inverted:expr) => {
+        range_guard!($name, $W, $S, $w, $sget, $inverted, None);
+    };
+    ($name:ident, $W:ty, $S:ty, $w:ident, $sget:ident, $inverted:expr, $nfix:expr) => {
         harness!($name, unwind = 8, |s| {
             const WB: u32 = <$W>::BITS;
             const SB: u32 = <$S>::BITS;
@@ -22,7 +25,13 @@ macro_rules! range_guard {
                 Err(_) => return,
             };
             let wraps = lower.wrapping_add(range) <= lower;
-            let n = s.usize();
+            // run length of the inverted situation: symbolic, or fixed per harness (keeps the Vec pushes of
+            // `seal` concrete for CBMC)
+            let nfix: Option<usize> = $nfix;
+            let n = match nfix {
+                Some(v) => v,
+                None => s.usize(),
+            };
             let w = s.$w();
             let sit = if $inverted {
                 s.assume(wraps && n >= 1 && n <= 2 && w != <$W>::MAX);
@@ -97,7 +106,9 @@ macro_rules! range_guard {
                 assert!(out[i] == want[i]);
                 i += 1;
             }
-            vcover!(k == 0);
+            if nfix.is_none() {
+                vcover!(k == 0);
+            }
             vcover!(k >= 3);
             core::mem::forget(out);
         });
@@ -108,6 +119,10 @@ range_guard!(range_guard_inverted_u8_u16, u8, u16, u8, u16, true);
 range_guard!(range_guard_normal_u16_u32, u16, u32, u16, u32, false);
 range_guard!(range_guard_inverted_u16_u32, u16, u32, u16, u32, true);
 range_guard!(range_guard_normal_u32_u64, u32, u64, u32, u64, false);
+range_guard!(range_guard_inverted_n1_u8_u16, u8, u16, u8, u16, true, Some(1));
+range_guard!(range_guard_inverted_n2_u8_u16, u8, u16, u8, u16, true, Some(2));
+range_guard!(range_guard_inverted_n1_u16_u32, u16, u32, u16, u32, true, Some(1));
+range_guard!(range_guard_inverted_n2_u16_u32, u16, u32, u16, u32, true, Some(2));
 range_guard!(range_guard_inverted_u32_u64, u32, u64, u32, u64, true);
 
 // temporary decoder view: dropping it leaves the encoder untouched
@@ -213,7 +228,7 @@ harness!(ans_seek_reversed_u8_u16_p4, unwind = 8, |s| {
     let _ = p0;
 });
 
-dispatch!(
+dispatch!(range_guard_inverted_n1_u8_u16, range_guard_inverted_n2_u8_u16, range_guard_inverted_n1_u16_u32, range_guard_inverted_n2_u16_u32, 
     range_guard_normal_u8_u16, range_guard_inverted_u8_u16, range_guard_normal_u16_u32, range_guard_inverted_u16_u32,
     range_guard_normal_u32_u64, range_guard_inverted_u32_u64, range_decoder_view_u8_u16,
     ans_seek_u8_u16_p4, ans_seek_reversed_u8_u16_p4
